@@ -324,6 +324,12 @@ func (t *tr) safety(f Term, kind string, pos token.Pos, desc string) {
 	if t.cur == nil {
 		return
 	}
+	if kind == "safety/nil" && t.u.Contract != nil && t.u.Contract.Flags["trust_nil_safety"] == "true" {
+		// nil-dereference safety is not an obligation of this unit (listed as an assumption)
+		t.V.note("flag trust_nil_safety on " + t.u.Key + ": nil-dereference safety not checked in this unit")
+		t.assume(f)
+		return
+	}
 	if t.mayPanicOut() && len(t.guard) == 0 && !t.hasRecoverOnly() {
 		if f.S == "true" {
 			return
